@@ -383,6 +383,41 @@ def run(F, rep, tier):
         else:
             rep.viol('R14.7', '%s|cycle-empty' % fk, 'a Cycle stream can be built over an empty base: next/index then take a remainder by zero and index an empty vector', b.loc(bb))
 
+    # ---------------- R14.8
+    rep.rule('R14.8', 'std slice operations that panic on a length mismatch (copy_from_slice, clone_from_slice, swap_with_slice) are dominated by '
+             'an equality test between a len() of the source and the expected length')
+    n8 = 0
+    for b in F.all_bodies():
+        if b.path not in R:
+            continue
+        for c in b.calls:
+            if c.target.rsplit('::', 1)[-1] not in ('copy_from_slice', 'clone_from_slice', 'swap_with_slice'):
+                continue
+            n8 += 1
+            src_roots = {r[:2] for r in b.roots(c.args[1], through_calls=(r'as_bytes$',))}
+            okl = False
+            for i in b.dominators()[c.bb]:
+                for s_ in b.stmts(i):
+                    if s_[0] == 'a' and s_[2][0] == 'bin' and s_[2][1] in ('Eq', 'Ne'):
+                        for x in s_[2][2:4]:
+                            og = origins(b, x)
+                            if any(o[0] == 'call' and o[1].endswith('::len') for o in og):
+                                # the len must be taken of (something derived from) the copied source
+                                for (bb_, j_, k_, d_) in b.defs().get(op_local(x), []) if op_local(x) is not None else []:
+                                    if k_ == 'call' and d_[1].get('d', '').endswith('::len'):
+                                        if {r[:2] for r in b.roots(d_[2][0], through_calls=(r'as_bytes$',))} & src_roots:
+                                            for (sw, tt, ff) in bool_switches(b, s_[1][0]):
+                                                good = tt if s_[2][1] == 'Eq' else ff
+                                                bad = ff if s_[2][1] == 'Eq' else tt
+                                                if c.bb in b.reachable_from(good, avoid={sw}) and c.bb not in b.reachable_from(bad, avoid={sw}):
+                                                    okl = True
+            fk = C.fn_key(b.path)
+            if okl:
+                rep.ok('R14.8', '%s: %s' % (fk, c.target.rsplit('::', 1)[-1]), 'length of the source tested for equality first')
+            else:
+                rep.viol('R14.8', '%s|%s|unguarded' % (fk, c.target.rsplit('::', 1)[-1]), '%s calls %s without first testing the byte length of the source: a length mismatch panics inside std (not catchable)' % (fk, c.target.rsplit('::', 1)[-1]), c.loc())
+    rep.floor('R14.8', 'length-sensitive slice copies', n8, 1)
+
     # ---------------- R14.6
     rep.rule('R14.6', 'peek()-guarded loops consume or leave on every path (C11 R11.3, evaluated crate-wide here)')
     n6 = 0
